@@ -126,7 +126,14 @@ fn evolution_attr(r: &Record) -> String {
             Step::MadeTransient { name } => format!("FieldMadeTransient({name:?})"),
         })
         .collect();
-    format!("#[evolution({})]\n", steps.join(", "))
+    // a history may be spread over several attributes on the same item (one per release, say)
+    let key = crate::fnv64(steps.join(",").as_bytes());
+    if steps.len() >= 2 && key % 3 == 0 {
+        let cut = 1 + (key / 3) as usize % (steps.len() - 1);
+        format!("#[evolution({})]\n#[evolution({})]\n", steps[..cut].join(", "), steps[cut..].join(", "))
+    } else {
+        format!("#[evolution({})]\n", steps.join(", "))
+    }
 }
 
 fn fields_src(r: &Record, named: bool, vis: &str) -> String {
@@ -179,7 +186,8 @@ pub fn decl_src(d: &Decl) -> String {
                 }
                 let ev = evolution_attr(&v.record);
                 if !ev.is_empty() {
-                    s.push_str(&format!("    {ev}"));
+                    s.push_str(&format!("    {}", ev.trim_end().replace('\n', "\n    ")));
+                    s.push('\n');
                 }
                 match v.shape {
                     // explicit discriminants, descending so that they disagree with every index order
